@@ -387,19 +387,43 @@ impl Space for Entsizes {
         format!("e_shentsize and e_phentsize over {} on a 3-section/2-phdr file; sh_entsize over V64 and size+-1 on .symtab, .dynsym, .gnu.version (both parsers) and .dynamic (slice parser) of the tiny-full skeleton; 4 encodings", if self.all_small { "all of 0..=0x100 and V16" } else { "V16 and size+-1" })
     }
     fn size(&self) -> u64 {
-        4 * 6
+        4 * 7
     }
     fn describe(&self, idx: u64) -> Value {
-        let fam = ["e_shentsize", "e_phentsize", ".symtab sh_entsize", ".dynsym sh_entsize", ".gnu.version sh_entsize", ".dynamic sh_entsize"][(idx % 6) as usize];
-        json!({"encoding": ENCS[(idx / 6) as usize].name(), "field": fam})
+        let fam = ["e_shentsize", "e_phentsize", ".symtab sh_entsize", ".dynsym sh_entsize", ".gnu.version sh_entsize", ".dynamic sh_entsize", "present-but-empty program header table"][(idx % 7) as usize];
+        json!({"encoding": ENCS[(idx / 7) as usize].name(), "field": fam})
     }
     fn run(&self, idx: u64, out: &mut Outcome) {
-        let enc = ENCS[(idx / 6) as usize];
-        let fam = idx % 6;
+        let enc = ENCS[(idx / 7) as usize];
+        let fam = idx % 7;
         let shs = layout(Kind::Shdr, enc.class).size as u64;
         let phs = layout(Kind::Phdr, enc.class).size as u64;
         let mut n_ok = 0u64;
-        if fam < 2 {
+        if fam == 6 {
+            // e_phoff != 0 with e_phnum == 0: the table is present and empty; its entry size and its
+            // position are still checked (offset inside / at / past the end of the file)
+            let e = reference_encoding(3, 0, 2);
+            let base = make(enc, 3, 0, 2, Placement::PhThenSh, &e, shs, phs);
+            let flen = base.bytes.len() as u64;
+            let l = layout(Kind::Ehdr, enc.class);
+            for phoff in [l.size as u64, flen - 1, flen, flen + 1, 1 << 40] {
+                for phent in [phs, phs - 1, 0, 0xffff] {
+                    let mut bytes = base.bytes.clone();
+                    let f1 = &l.fields[rl::field_index(Kind::Ehdr, enc.class, "e_phoff")];
+                    let f2 = &l.fields[rl::field_index(Kind::Ehdr, enc.class, "e_phentsize")];
+                    let phoff_t = rl::trunc(phoff, f1.width);
+                    put(&mut bytes, f1.off, f1.width, enc.order, phoff_t);
+                    put(&mut bytes, f2.off, f2.width, enc.order, phent);
+                    let img = Img { bytes: bytes.clone(), shoff: base.shoff, phoff: phoff_t };
+                    let (ws, wst) = expected(3, 0, 2, &e, &img, enc, shs, phent);
+                    let ctx = format!("{} e_phoff={phoff_t:#x} e_phnum=0 e_phentsize={phent:#x} (file length {flen})", enc.name());
+                    let arc = Arc::new(bytes);
+                    judge(&ctx, "ElfBytes", observe_slice(&arc, 2), &ws, out);
+                    judge(&ctx, "ElfStream", observe_stream(&arc, 2), &wst, out);
+                    n_ok += ws.opened as u64;
+                }
+            }
+        } else if fam < 2 {
             let right = if fam == 0 { shs } else { phs };
             let mut vals = v16();
             vals.extend([right - 1, right, right + 1, right * 2]);
